@@ -10,6 +10,7 @@ import pymbolic.mapper.unifier as unimod
 
 from ..core import check, short
 from ..gen import expr as G
+from ..gen import scale
 from ..mon.trace import HandlerTrace
 from ..ref import normal, refsem
 from .c08 import refsub
@@ -666,6 +667,35 @@ def workload(ctx):
             if i < 3:
                 ctx.sample("unify-" + mode, f"pattern {pat}  target {tgt}")
             ctx.run("C16.unify", (pat, tgt, cands, mode))
+        # scale: sums / products of 9 .. 66 operands -- a few operands that mention pattern
+        # variables among many that do not (those occur verbatim in the target)
+        for w in scale.SMALL_WIDTHS + [40, 66]:
+            for cls in (p.Sum, p.Product):
+                for mode in ("inst", "inconsistent", "rename"):
+                    if not ctx.mine("wide"):
+                        continue
+                    P, Q, R = PV
+                    hot = [p.Call(p.Variable("f"), (P,)), p.Product((2, P)) if cls is p.Sum
+                           else p.Sum((2, P)), p.Power(Q, 2), p.Subscript(p.Variable("a"), R),
+                           p.Call(p.Variable("g"), (P, Q))][:rng.randint(2, 5)]
+                    cold = [rng.choice([p.Call(p.Variable("h"), (i,)), p.Subscript(p.Variable("b"), i),
+                                        p.Power(TV[i % len(TV)], i + 2)]) for i in range(w - len(hot))]
+                    ops = hot + cold
+                    rng.shuffle(ops)
+                    pat = cls(tuple(ops))
+                    if mode == "inst":
+                        sub = [(v.name, gen(rng, 1, TV)) for v in PV]
+                        tgt = shuffle(rng, refsub(pat, sub))
+                    elif mode == "rename":
+                        sub = [(v.name, p.Variable(nm)) for v, nm in zip(PV, rng.sample(["u1", "u2", "u3", "x"], 3))]
+                        tgt = shuffle(rng, refsub(pat, sub))
+                    else:
+                        tgt = shuffle(rng, per_occurrence(rng, pat))
+                    if not isinstance(tgt, type(pat)):
+                        continue
+                    ctx.case((normal.typed_key(pat), normal.typed_key(tgt)), True, n=0)
+                    ctx.count("wide_patterns")
+                    ctx.run("C16.unify", (pat, tgt, "pqr", mode))
         for k, v in tr.handlers().items():
             ctx.count("handler:" + k, v)
     if HAVE_MATCHPY:
@@ -692,6 +722,15 @@ def workload(ctx):
                 ctx.sample("matchpy", f"subject {G.src(e)} pattern {G.src(pat)}")
             ctx.run("C16.match", (sub, pat, False))
             ctx.run("C16.match", (e, pat, True))
+            if isinstance(pat, AC_BRIDGE) and all(isinstance(c, (p.DotWildcard, p.StarWildcard))
+                                                  for c in pat.children):
+                # in an associative node of wildcards only, a dot wildcard may take the WHOLE
+                # operand sequence (w1_ := a + b, star empty): the rule g(w1_, ...) <- it finds
+                # its own left-hand side again inside its result and rewrites for ever -- the
+                # rule does not terminate, whatever replace_all does (123 callbacks, then
+                # RecursionError inside matchpy)
+                ctx.count("nonterminating_rules_not_applied")
+                continue
             ctx.run("C16.replace", (e, pat))
         ctx.floor("roundtrips", 1000)
         ctx.floor("matches_reported", 1000)
@@ -699,6 +738,7 @@ def workload(ctx):
     else:
         ctx.inconclusive.append("matchpy not importable")
     ctx.floor("unifier_calls", 1500)
+    ctx.floor("wide_patterns", 40)
     ctx.floor("records", 1000)
     ctx.floor("mode:rename", 500)
     ctx.floor("handler:UnidirectionalUnifier.map_commut_assoc", 500)
